@@ -98,6 +98,16 @@ def cases(scripts, seed, limit):
             for d in [0, 5, 40]:
                 for c in ("bytesmut_extend_iter", "bytesmut_from_iter", "bytes_from_iter"):
                     out.append({"consumer": c, "script": [{"rem": lo, "chunk": 0, "adv": "ok", "cnt": 0}, {"rem": hi, "chunk": 0, "adv": "ok", "cnt": 0}], "n": 0, "d": d})
+    # iterators that panic after k items (possibly after the destination has grown), destination
+    # kept alive across the panic: plain Vec-backed, with a front offset, shared with a sibling
+    for c in ("bytesmut_extend_iter_panic", "bytesmut_extend_iter_panic_off", "bytesmut_extend_iter_panic_arc"):
+        for lo in [0, 1, 5, 64]:
+            for hi in [0, 3, "max"]:
+                for d in [5, 40]:
+                    for k in [0, 1, 3, 9, 30]:
+                        if k > d + 1:
+                            continue
+                        out.append({"consumer": c, "script": [{"rem": lo, "chunk": 0, "adv": "ok", "cnt": 0}, {"rem": hi, "chunk": 0, "adv": "ok", "cnt": 0}], "n": k, "d": d})
     for pa in [0, 1, 2, 3]:
         out.append({"consumer": "from_owner", "script": [], "n": pa, "d": 0})
     for pos in [0, 1, 2, 3, 8, 9, 1 << 40]:
@@ -108,9 +118,11 @@ def cases(scripts, seed, limit):
     # implementation (the model's transcription fixes one order)
     import itertools
     ent = [{"rem": r, "chunk": c, "adv": "ok", "cnt": 0} for r in (0, 1, 5, "max") for c in (0, 1, 12)]
+    ent.append({"rem": 1, "chunk": 1, "adv": "ok", "cnt": 0, "boom": True})      # the environment object panics at this call
     for ln in (1, 2, 3):
         for combo in itertools.product(ent, repeat=ln):
-            for name, d in (("bytesmut_put", 0), ("bytesmut_put", 3), ("bytesmut_put_split", 4), ("vec_put", 0), ("vec_put", 9), ("copy_to_bytes", 0)):
+            for name, d in (("bytesmut_put", 0), ("bytesmut_put", 3), ("bytesmut_put_split", 4), ("vec_put", 0), ("vec_put", 9), ("copy_to_bytes", 0),
+                            ("bytesmut_put_keep", 0), ("bytesmut_put_keep_arc", 0)):
                 if ln == 3 and rnd.random() > 0.25:
                     continue
                 out.append({"consumer": name, "script": list(combo), "n": 5 if name == "copy_to_bytes" else 0, "d": d})
@@ -161,8 +173,11 @@ def run(tag, cs, profile="debug"):
                 f.write(json.dumps(ev) + "\n")
         crashes += 1
         start = ev["pid"] + 1
-        if crashes > 200:
-            raise C.ToolError("hostile driver crashed more than 200 times")
+        if crashes > 80:
+            # the code under test crashes in case after case: data, not a tool error; the cases
+            # run so far are judged, the rest of the batch is dropped
+            C.log("[hostile] %s: %d crashes, remaining cases dropped" % (tag, crashes))
+            break
     n = H.clean_trace(raw, trace)
     t1 = time.time()
     rc, out = C.run_tlc("HostileTrace", "HostileTrace.cfg", os.path.join(C.WORK, "tlc_" + tag), workers=1, env_extra={"TRACE": trace}, timeout=1800, heap="6g")
